@@ -26,6 +26,10 @@ ENGINES = {  # name -> number in Model/Engines.v
     "respq": 30,
     "sink3": 31,
     "sink5": 32,
+    "inb3": 33,
+    "inb5": 34,
+    "cli3": 39,
+    "cli5": 40,
     "limiter": 35,
     "iostate": 36,
     "timerrt": 37,
@@ -216,6 +220,8 @@ def grep_forbidden(only=None):
 
 def theorem_statements(pid):
     """{name: normalised statement} of every Theorem in Props/<pid>.v"""
+    if not os.path.exists(os.path.join(COQ, "Props", pid + ".v")):
+        return {}
     src = strip_comments(open(os.path.join(COQ, "Props", pid + ".v")).read())
     res = {}
     for m in re.finditer(r"\bTheorem\s+(\w+)\s*:(.*?)\bProof\.", src, re.S):
@@ -292,6 +298,8 @@ def print_assumptions(pid, names):
 def audit(pid):
     """returns (obligations, discharged, problems[])"""
     problems = []
+    if not os.path.exists(os.path.join(COQ, "Props", pid + ".v")):
+        return 0, 0, ["Props/%s.v does not exist (no theorem is claimed for this property yet)" % pid], ""
     lp, st = statement_lock_check(pid)
     problems += lp
     names = sorted(st)
